@@ -137,7 +137,7 @@ extern "C" int harness_main() {
     if (!with_stopper) {
         verif_assert(g_ndel == accepted, "C16.every_accepted_value_delivered_no_lost_wakeup");
         if (g_blocking) verif_assert(accepted == NPROD * MSGS, "C16.blocking_sends_all_accepted_without_stop");
-        if (accepted >= 3) verif_reach("three_values_delivered");
+        if (accepted == NPROD * MSGS) verif_reach("all_values_accepted_and_delivered");
     } else verif_reach("stopper_present");
     verif_log("accepted", accepted);
     verif_log("delivered", g_ndel);
